@@ -218,7 +218,7 @@ class Gen:
                     b = desc[b - 1]["parent"]
                 return b
             for _ in range(self.r.randint(1, 2 if branched else 3)):
-                t = self.r.choice(["pip", "pip", "cang", "cspeed", "rod", "rod", "cori", "ball", "ball", "ccoord", "cacc", "weld"])
+                t = self.r.choice(["pip", "pip", "cang", "cspeed", "rod", "rod", "cori", "ball", "ball", "ccoord", "cacc", "weld", "noslip"])
                 if branched:
                     t = self.r.choice(["ball", "ball", "pip", "rod", "cang", "weld"])
                 b1, b2 = self.r.randint(0, nb), self.r.randint(1, nb)
@@ -256,6 +256,20 @@ class Gen:
                     grp, st1, st2 = len(cons), vec(), vec()
                     for part in range(3):
                         cons.append({"type": "ballc", "b1": b1, "b2": b2, "st": st1, "st2": st2, "anc": anc, "on": on, "grp": grp, "part": part, "comp": part})
+                elif t == "noslip":
+                    b3 = self.r.randint(0, nb)
+                    if len({b1, b2, b3}) < 2 or b2 == b3:
+                        continue
+                    def chainn(b):
+                        out = [b]
+                        while b:
+                            b = desc[b - 1]["parent"]
+                            out.append(b)
+                        return out
+                    cs = [chainn(x) for x in (b1, b2, b3)]
+                    anc = next(x for x in cs[0] if x in cs[1] and x in cs[2])
+                    ax, e = self.r.choice(UAX)
+                    cons.append({"type": "noslip", "b1": b1, "b2": b2, "b3": b3, "st": vec(), "n": {"n": ax, "e": e}, "anc": anc, "on": on})
                 elif t == "weld":
                     # Weld(b1 frame (RB, pB), b2 frame (RF, pF)) = the three ConstantOrientation equations followed by the three Ball
                     # equations at the frame origins: six spec entries, one library constraint
@@ -648,14 +662,14 @@ def compare(cfg, want, got):
                 pv2 = e["verrU2"]
                 e["verrU2"], e["aerr0U2"] = pv2 / r, e["aerr0U2"] / r - pv2 * pv2 / r ** 3
                 w["G"][k] = [g / r for g in w["G"][k]]
-        hol = [k for k in on if cfg["cons"][k]["type"] not in ("cspeed", "cacc")]
-        non = [k for k in on if cfg["cons"][k]["type"] == "cspeed"]
+        hol = [k for k in on if cfg["cons"][k]["type"] not in ("cspeed", "cacc", "noslip")]
+        non = [k for k in on if cfg["cons"][k]["type"] in ("cspeed", "noslip")]
         acc = [k for k in on if cfg["cons"][k]["type"] == "cacc"]
         order = hol + non + acc                # the library's equation order: holonomic, nonholonomic, acceleration-only
         for k in on:
             g = got["cons"][k]
             t = cfg["cons"][k]["type"]
-            if t not in ("cspeed", "cacc"):
+            if t not in ("cspeed", "cacc", "noslip"):
                 chk("C07", "position-error/" + t, w["cons"][k]["perr"], g["perr"])
             if t != "cacc":
                 chk("C07", "velocity-error-is-derivative-of-position-error/" + t, w["cons"][k]["verr"], g["verr"])
